@@ -251,15 +251,19 @@ def _check_live(live, vals, out, contexts, allow_split):
                 _check_live([it], vals, out, contexts, False)
             return
         i = live[0][0]
-        for f in rel:
-            out[i]["problems"].append({"i": i, "kind": "static", "rule": f.rule, "what": f"[{f.rule}] {f.msg}"})
-        for m in d.multi_driven:
-            out[i]["problems"].append({"i": i, "kind": "static", "rule": "multi", "what": f"multiply driven: {m}"})
-        if any(f.rule == "type" for f in rel):
-            # the emitted text is not well-typed VHDL: there is nothing to simulate
-            out[i]["status"] = "violation"
-            out[i]["src"] = info["src"]
+        if len(contexts) > 1:
+            _split_contexts(live, out, contexts, info)
             return
+        # the emitted text of this context is not legal VHDL: there is nothing to simulate
+        for f in rel:
+            out[i]["problems"].append({"i": i, "kind": "static", "ctx": contexts[0], "rule": f.rule,
+                                       "what": f"[{f.rule}] {f.msg}"})
+        for m in d.multi_driven:
+            out[i]["problems"].append({"i": i, "kind": "static", "ctx": contexts[0], "rule": "multi",
+                                       "what": f"multiply driven: {m}"})
+        out[i]["status"] = "violation"
+        out[i]["src"] = info["src"]
+        return
     # computed types
     for i, tree in live:
         if type_open(tree):
@@ -280,20 +284,7 @@ def _check_live(live, vals, out, contexts, allow_split):
             return
         i = live[0][0]
         if len(contexts) > 1:
-            # localise: the two contexts separately (a run-time error in one must not hide the other's values)
-            merged = None
-            for ctx in contexts:
-                sub = check_items(live, contexts=(ctx,), allow_split=False)[0]
-                if merged is None:
-                    merged = sub
-                else:
-                    merged["problems"] += sub.get("problems", [])
-                    merged["evaluations"] += sub.get("evaluations", 0)
-                    merged["open"] += sub.get("open", 0)
-                    if sub["status"] != "ok":
-                        merged["status"] = sub["status"] if merged["status"] == "ok" else merged["status"]
-            merged["src"] = info["src"]
-            out[i] = merged
+            _split_contexts(live, out, contexts, info)
             return
         out[i]["problems"].append({"i": i, "kind": "simerror", "ctx": contexts[0],
                                    "what": f"run-time error in the emitted design: {e}"})
@@ -317,6 +308,25 @@ def _check_live(live, vals, out, contexts, allow_split):
             out[i]["status"] = "violation"
         if len(live) == 1:
             out[i]["src"] = info["src"]
+
+
+def _split_contexts(live, out, contexts, info):
+    """one expression, the contexts separately: a static or run-time error in one context must not hide the
+    values of the other"""
+    i = live[0][0]
+    merged = None
+    for ctx in contexts:
+        sub = check_items(live, contexts=(ctx,), allow_split=False)[0]
+        if merged is None:
+            merged = sub
+        else:
+            merged["problems"] = merged.get("problems", []) + sub.get("problems", [])
+            merged["evaluations"] = merged.get("evaluations", 0) + sub.get("evaluations", 0)
+            merged["open"] = merged.get("open", 0) + sub.get("open", 0)
+            if sub["status"] != "ok" and merged["status"] == "ok":
+                merged["status"] = sub["status"]
+    merged["src"] = info["src"]
+    out[i] = merged
 
 
 def _probed(info, i):
